@@ -454,3 +454,10 @@ impl Check for C11 {
         }
     }
 }
+
+pub fn main(opts: &Opts) -> i32 {
+    drive::<C11>(opts)
+}
+pub fn worker(_args: &[String]) -> i32 {
+    2
+}
